@@ -53,6 +53,7 @@ func (br *binReplayer) replay(m *Model, reqs []Req, lens []int, closed []bool) (
 	defer c.Close()
 	br.n++
 	for i, rq := range reqs {
+		tick()
 		if i >= len(lens) {
 			break
 		}
